@@ -132,6 +132,8 @@ func main() {
 		}
 		for j := 0; j < *n/4+1; j++ {
 			steeredCase(j+1, *seed*7+int64(j), senc)
+			steeredLoadCase(j+1, *seed*11+int64(j), senc)
+			steeredFailedFlushCase(j+1, *seed*13+int64(j), senc)
 		}
 	case "replay-map":
 		enc, done := openOut(*out)
